@@ -570,7 +570,7 @@ func runC22(c c22Case) *Violation {
 func TestC22(t *testing.T) {
 	Ev.Rule = "case = 1-6 queries started together on one engine (match-all / token / one-file), MaxQueryConcurrency in {1,2,3,8}, datasets of 2-12 files x 1-6 blocks x 1-300 rows (15%: one file whose block filter region spans several 4 MiB chunks, queried with bloom conditions), 0.2-5 ms latency on every OpenFile/Seek/Read so reads overlap, some consumers stalled (they stop reading while >256 rows are pending and are only closed at the end). Oracle: the harness's gauge of in-progress OpenFile/Seek/Read calls on query handles never exceeds MaxQueryConcurrency; every non-stalled query completes with Err nil within 12 s (confirmed by two re-executions). Non-trivial: more block jobs than MaxQueryConcurrency and the gauge reached the limit; distinct by case."
 	Ev.Assumptions = []string{"the gauge counts OpenFile, Seek and Read in progress on handles opened through the query's DataStore"}
-	runChecks(t, "concurrent", 150, 4000, genC22(), runC22)
+	runChecks(t, "concurrent", 150, 12000, genC22(), runC22)
 }
 
 var _ = rapid.Bool
